@@ -301,6 +301,12 @@ def run(ctx):
             ctx.error("C12.R2: law `%s` (%s) fits no discharge method: %s" % (text, loc, e))
     ctx.floor("C12.R2", 20)
 
+    # ---------------------------------------------------------------- R3 what the alias / integer laws additionally rest on
+    from . import C03
+    C03.native_check(ctx, "C12.R3")
+    C03.helper_range_checks(ctx, "C12.R3")      # BytesInteger(n) vs Bitwise(BitsInteger(8n)): both helper families accept exactly the two's-complement range
+    ctx.floor("C12.R3", 6)
+
     # ---------------------------------------------------------------- R1
     fi = M.function("Padding")
     paths = paths_of(ctx, fi)
@@ -363,5 +369,8 @@ def run(ctx):
             ctx.ob("C12.R5", fi, ok, "%s._decode wraps a %s in %s, a subclass of %s that only changes __str__" % (cls, T, dc, T), key="%s %s" % (cls, dc))
         fe, pe = own_method_paths(ctx, cls, "_encode")
         ctx.ob("C12.R5", fe, len(pe) == 1 and pe[0].retval == OBJ, "%s._encode is the identity" % cls, key="%s encode" % cls)
-    ctx.floor("C12.R5", 7)
+        subs = [e for p in paths for e in p.events if e.kind == "SUB"]
+        ctx.ob("C12.R5", fi, all(e["m"] in PROTO_SUB and e.a.get("ctx") == CTX and e.a.get("path") == PATH for e in subs),
+               "%s._decode consults the wrapped construct only within the running parse (same context and path), so it cannot fail where the bare construct succeeds" % cls, key="%s no re-entry" % cls)
+    ctx.floor("C12.R5", 9)
     ctx.control("C12.R2", expr_term(ast.parse("Select(Pass, subcon)", mode="eval").body, {"subcon"}) != ("ctor", "Select", (("param", "subcon"), ("free", "Pass")), ()))
